@@ -85,6 +85,8 @@ p_tree_bst_remove (PTreeBaseNode	**root_node,
 	PTreeBaseNode	*prev_node;
 	PTreeBaseNode	**node_pointer;
 	pint		cmp_result;
+	ppointer	tmp_key;
+	ppointer	tmp_value;
 
 	cur_node     = *root_node;
 	node_pointer = root_node;
@@ -114,8 +116,16 @@ p_tree_bst_remove (PTreeBaseNode	**root_node,
 			prev_node    = prev_node->right;
 		}
 
+		/* Exchange the pairs: the pair being removed must leave the tree
+		 * (and be passed to the destroy notifiers) with the unlinked node */
+		tmp_key   = cur_node->key;
+		tmp_value = cur_node->value;
+
 		cur_node->key   = prev_node->key;
 		cur_node->value = prev_node->value;
+
+		prev_node->key   = tmp_key;
+		prev_node->value = tmp_value;
 
 		cur_node = prev_node;
 	}
